@@ -414,13 +414,15 @@ TRet ==
            \* a ConsumeOk carries the receiving end of the consumer's queue; a call that does not
            \* hand it to the application drops it
            lost == IF pops /\ ~dropcase /\ rep0.ok /\ rep0.f.m = "basic.consume-ok" /\ ~(op = "consume" /\ e.ok)
-                   THEN Field(rep0.f, "cname", rep0.f.consumer_tag) ELSE ""
+                   THEN Field(rep0.f, "cname", rep0.f.consumer_tag \o "@" \o ToString(rep0.f.ch)) ELSE ""
            x2 == IF lost # "" /\ Has(x.cq, lost) THEN [x EXCEPT !.cq[lost].rx = FALSE] ELSE x
        IN /\ Step(Judge(x))
           /\ w' = IF pops /\ ~dropcase THEN PopReply(x2, h) ELSE x2
           /\ st' = [(IF useFired THEN DeadMark(w, x) ELSE st)
                     EXCEPT !.pendw = IF useFired THEN FALSE ELSE @,
-                           !.proven = IF ~e.ok /\ Has(x.hs, h) /\ x.hs[h].dead THEN @ \cup {h} ELSE @]
+                           \* (an error received from the reply queue does not prove the request queue is gone
+                           \* already: the I/O thread drops the slot a moment after queueing the error)
+                           !.proven = @]
           /\ ops' = Del(ops, e.th)
           /\ seen' = seen
 
